@@ -151,6 +151,11 @@ def gen(seed: int, i: int, tier: str) -> dict:
         cfg["cancel_in_body"] = True
         cfg["reenter"] = False
     if rng.random() < 0.08 and not any(k for k in tapes if "fail" in k) and "cancel_at" not in cfg:
+        # the LINK dies while the application is inside the context (connection reset, broker gone, read error): the
+        # application sees the transport error from listen() and leaves - by letting it propagate or after catching it.
+        # Leaving must still disconnect the transport, save, and leave nothing running.
+        cfg["link_failure"] = rng.choice(["propagate", "caught"])
+    elif rng.random() < 0.08 and not any(k for k in tapes if "fail" in k) and "cancel_at" not in cfg:
         # the disk fails during the first session (outside this property's fault space: nothing is demanded of that
         # session); the SECOND session on the same gateway object, with a healthy disk, must satisfy the property
         cfg["disk_fault"] = [rng.choice(["write", "open", "close"]), rng.randint(1, 4), rng.choice(["ENOSPC", "EIO"])]
@@ -306,6 +311,25 @@ def _run(scn, cfg, w, res):
             if cfg["body"] == "raise":
                 st["body_exc"] = BodyError("body failed")
                 raise st["body_exc"]
+        if cfg.get("link_failure"):
+            if kind == "sim":
+                transport.inbox.put_nowait(("err", "TransportFailedError"))
+            elif kind in ("tcp", "serial"):
+                peer.reset()
+            else:
+                broker.drop_connection()
+            w.log("harness", "link-failure", kind)
+            g2 = gw.listen()
+            try:
+                await asyncio.wait_for(g2.__anext__(), 50)
+                st["link_error"] = "none"
+            except asyncio.TimeoutError:
+                st["link_error"] = "timeout"
+            except AIOMySensorsError as err:
+                st["link_error"] = type(err).__name__
+                if cfg["link_failure"] == "propagate":
+                    st["body_exc"] = err
+                    raise
 
     async def main():
         try:
@@ -331,15 +355,26 @@ def _run(scn, cfg, w, res):
     st["task"] = t
     if cfg.get("cancel_at") is not None:
         # main() catches BaseException itself, so the CancelledError shows up in st["exc"]
-        conn = scn.get("tapes", {}).get("connect.lat", [0])[0] if cfg.get("cancel_in_body") else 0
-        loop.call_later(cfg["cancel_at"] + st_offset(scn) + conn, t.cancel)
-        res.probes["cancelled_while_connecting" if not cfg.get("cancel_in_body") else "cancelled_in_body"] += 1
+        conn = (scn.get("tapes", {}).get("connect.lat") or [0])[0] if cfg.get("cancel_in_body") else 0
+
+        def do_cancel():
+            # where the cancellation lands is decided by the run, not by the generator's arithmetic
+            st["cancel_phase"] = ("connecting" if st["entered"] is None else
+                                  "body" if st["exit_begin"] is None else "exiting") if not st["done"] else "after"
+            t.cancel()
+
+        loop.call_later(cfg["cancel_at"] + st_offset(scn) + conn, do_cancel)
     loop.run_until_idle(40 * 86400)
     loop.on_exec_submit = None
-    tapes = scn.get("tapes", {})
-    connect_fault = bool(tapes.get("connect.fail")) and kind != "mqtt" or (kind == "mqtt" and (
-        bool(tapes.get("mqtt.connect.fail")) or any(tapes.get("mqtt.subscribe.fail", []))))
-    disconnect_fault = kind == "sim" and bool(tapes.get("disconnect.fail"))
+    # faults are the ones that actually fired (a minimised tape may hold zeroes or nothing)
+    connect_fault = bool(w.faults.get("connect_fail") or w.faults.get("mqtt_connect_fail")
+                         or w.faults.get("mqtt_subscribe_fail"))
+    disconnect_fault = kind == "sim" and bool(w.faults.get("disconnect_fail"))
+    cancel_phase = st.get("cancel_phase")
+    if cancel_phase == "connecting":
+        res.probes["cancelled_while_connecting"] += 1
+    elif cancel_phase == "body":
+        res.probes["cancelled_in_body"] += 1
     if not st["done"]:
         res.violate(PROP, "context-completes", "hang", f"main task never finished; vt={loop.time()}")
         t.cancel()
@@ -366,7 +401,7 @@ def _run(scn, cfg, w, res):
         for u in loop.unhandled:
             res.violate(PROP, "no-task-left-running", f"unhandled-in-loop:{u['exc']}", str(u))
     # ---- connect failure ----
-    if st["entered"] is None and cfg.get("cancel_at") is not None:
+    if st["entered"] is None and cancel_phase == "connecting":
         if not isinstance(exc, asyncio.CancelledError):
             res.violate(PROP, "connect-failure-propagates", f"cancellation-replaced-by:{type(exc).__name__ if exc else None}", repr(exc)[:200])
         res.nontrivial_key = "C16:" + w.elog.digest()[:24]
@@ -390,12 +425,20 @@ def _run(scn, cfg, w, res):
     # ---- exception seen by the caller ----
     if cfg["body"] == "raise":
         res.probes["body_raised"] += 1
-    want = "body" if cfg["body"] == "raise" else ("disconnect" if disconnect_fault else None)
-    if cfg.get("cancel_in_body") and isinstance(exc, asyncio.CancelledError):
+    want = "body" if st["body_exc"] is not None else ("disconnect" if disconnect_fault else None)
+    if cfg.get("link_failure"):
+        res.probes["link_failed_inside_context"] += 1
+    if cancel_phase in ("body", "exiting") and isinstance(exc, asyncio.CancelledError):
         exc = None  # the cancellation was requested by the application inside the body
+    if cancel_phase == "exiting":
+        want_any = True  # cancelled while the exit path was running: which error wins is not specified
+    else:
+        want_any = False
     if disconnect_fault:
         res.probes["disconnect_failed"] += 1
-    if want is None and exc is not None:
+    if want_any:
+        pass
+    elif want is None and exc is not None:
         res.violate(PROP, "exit-exception", f"unexpected:{type(exc).__name__}:{_phase(st, saves)}", repr(exc)[:300])
     elif want == "body" and exc is not st["body_exc"]:
         ok = disconnect_fault and isinstance(exc, TransportError)
@@ -407,7 +450,8 @@ def _run(scn, cfg, w, res):
     if kind == "sim":
         dcalls = transport.disconnect_calls
     elif kind in ("tcp", "serial"):
-        dcalls = 0 if (peer.transport is not None and not peer.transport.is_closing()) else 1
+        # close() calls made on the stream (a stream that the peer already reset still has to be closed by us)
+        dcalls = getattr(peer.transport, "close_calls", 0) if peer.transport is not None else 1
     else:
         dcalls = broker.disconnects
     if dcalls < 1:
